@@ -2,10 +2,52 @@
 //! Exit codes: 0 property held on everything explored (known findings printed),
 //! 1 violation (VIOLATION line printed), 2 machinery error (never a verdict).
 mod engine;
+
+/// Counting allocator (C06: peak growth of live heap bytes per hostile input).
+struct Counting;
+impl Counting {
+  #[inline]
+  fn add(n: usize) {
+    use std::sync::atomic::Ordering::Relaxed;
+    if !c06::COUNTING.load(Relaxed) {
+      return;
+    }
+    let live = c06::LIVE.fetch_add(n as i64, Relaxed) + n as i64;
+    c06::PEAK.fetch_max(live, Relaxed);
+  }
+}
+unsafe impl std::alloc::GlobalAlloc for Counting {
+  unsafe fn alloc(&self, l: std::alloc::Layout) -> *mut u8 {
+    Self::add(l.size());
+    std::alloc::System.alloc(l)
+  }
+  unsafe fn dealloc(&self, p: *mut u8, l: std::alloc::Layout) {
+    if c06::COUNTING.load(std::sync::atomic::Ordering::Relaxed) {
+      c06::LIVE.fetch_sub(l.size() as i64, std::sync::atomic::Ordering::Relaxed);
+    }
+    std::alloc::System.dealloc(p, l)
+  }
+  unsafe fn alloc_zeroed(&self, l: std::alloc::Layout) -> *mut u8 {
+    Self::add(l.size());
+    std::alloc::System.alloc_zeroed(l)
+  }
+  unsafe fn realloc(&self, p: *mut u8, l: std::alloc::Layout, new_size: usize) -> *mut u8 {
+    if new_size >= l.size() {
+      Self::add(new_size - l.size());
+    } else if c06::COUNTING.load(std::sync::atomic::Ordering::Relaxed) {
+      c06::LIVE.fetch_sub((l.size() - new_size) as i64, std::sync::atomic::Ordering::Relaxed);
+    }
+    std::alloc::System.realloc(p, l, new_size)
+  }
+}
+#[global_allocator]
+static GLOBAL: Counting = Counting;
+
 mod c01;
 mod c02;
 mod c04;
 mod c05;
+mod c06;
 mod c08;
 mod c09;
 mod c10;
@@ -81,6 +123,8 @@ fn main() {
   });
   if let Some(range) = shard {
     let code = match (id, one) {
+      ("C06", Some(idx)) => c06::one(&tier, idx),
+      ("C06", None) => c06::shard(&tier, &range),
       ("C09", Some(idx)) => c09::one(&tier, idx),
       ("C09", None) => c09::shard(&tier, &range),
       _ => 2,
@@ -98,6 +142,8 @@ fn main() {
     ("C04", Some(d)) => c04::replay(&d),
     ("C05", None) => c05::run(&tier),
     ("C05", Some(d)) => c05::replay(&d),
+    ("C06", None) => c06::run(&tier),
+    ("C06", Some(d)) => c06::replay(&d),
     ("C08", None) => c08::run(&tier),
     ("C08", Some(d)) => c08::replay(&d),
     ("C09", None) => c09::run(&tier),
